@@ -197,11 +197,22 @@ def gen_scenarios(rng, count):
                 setup.append({"op": "run", "repo": repo, "kind": rng.choice(KINDS if rng.random() < 0.8 else ["mix"]),
                               "n": rng.randint(2, 5), "seed": rng.randint(0, 4)})
 
+        tagged = []      # (repo, target, key) that some earlier op of this history wrote
+
         def tag_ops(repo, nexec, n, into):
+            """add / update / rm; most updates and removals hit a tag an earlier op wrote (and that
+            an earlier transfer may already have copied), so they create child tags / delete markers"""
             for _ in range(n):
-                tgt = [rng.choice(["exec", "exec", "job", "value", "call"]), rng.randrange(nexec)]
-                key = rng.choice(["k", "q"])
-                cmd = rng.choice(["add", "add", "update", "update", "rm"])
+                mine = [t for t in tagged if t[0] == repo]
+                if mine and rng.random() < 0.65:
+                    _, tgt, key = rng.choice(mine)
+                    cmd = rng.choice(["update", "update", "rm", "add"])
+                else:
+                    tgt = [rng.choice(["exec", "exec", "job", "value", "call"]), rng.randrange(nexec)]
+                    key = rng.choice(["k", "q"])
+                    cmd = rng.choice(["add", "add", "update", "update", "rm"])
+                if cmd != "rm":
+                    tagged.append((repo, tgt, key))
                 if cmd == "rm":
                     kv = ["--", key] if rng.random() < 0.5 else [f"{key}={rng.randint(1, 3)}"]
                 else:
@@ -220,11 +231,24 @@ def gen_scenarios(rng, count):
         tag_ops("a", na, rng.randint(4, 8), setup)
         steps = []
         some = [["exec", rng.randrange(na)] for _ in range(rng.randint(1, 2))]
+        def source_ops(n):
+            """what happens in the source between two transfers"""
+            nonlocal na
+            if rng.random() < 0.4:
+                steps.append({"op": "run", "repo": "a", "kind": rng.choice(KINDS), "n": rng.randint(2, 4),
+                              "seed": rng.randint(0, 4)})
+                na += 1
+            tag_ops("a", na, n, steps)
+
         if ty == 0:
+            # incremental history: every transfer is followed by edits of what was already copied
             steps.append({"method": "push", "src": "a", "dst": "b", "roots": some})
+            source_ops(2)
             steps.append({"method": "push", "src": "a", "dst": "b"})
-            tag_ops("a", na, 3, steps)
+            source_ops(3)
             steps.append({"method": "export", "src": "a", "dst": "b"})
+            source_ops(3)
+            steps.append({"method": "pull", "src": "a", "dst": "b"})
         elif ty == 1:
             nb = 2
             for _ in range(nb):   # the destination has history of its own, partly the same calls
@@ -245,12 +269,13 @@ def gen_scenarios(rng, count):
             steps.append({"method": "export", "src": "a", "dst": "b"})
             steps.append({"method": "push", "src": "b", "dst": "c"})
         else:
-            for _ in range(3):
+            # random incremental history, 4-5 transfers with source-side operations in between
+            for _ in range(rng.randint(4, 5)):
                 m = rng.choice(["push", "pull", "export"])
                 steps.append({"method": m, "src": "a", "dst": "b",
-                              **({"roots": [["exec", rng.randrange(na)]]} if m != "pull" and rng.random() < 0.5 else {})})
-                if rng.random() < 0.6:
-                    tag_ops("a", na, 2, steps)
+                              **({"roots": [["exec", rng.randrange(na)]]} if m != "pull" and rng.random() < 0.35 else {})})
+                source_ops(rng.randint(2, 3))
+            steps.append({"method": rng.choice(["push", "pull", "export"]), "src": "a", "dst": "b"})
         out.append({"repos": repos, "setup": setup, "steps": steps, "e2e": k == 0})
     return out
 
@@ -307,8 +332,9 @@ def reachable(src, roots):
     return {i for i in seen if i in src}
 
 
-def judge_step(rec):
-    """Decide the property for one transfer, from the dumps alone. -> [(key, what, detail)]"""
+def judge_step(rec, arrived=None):
+    """Decide the property for one transfer, from the dumps alone. -> [(key, what, detail)]
+    `arrived`: ids that reached this destination by transfers of the history so far (incl. this one)."""
     out = []
     st = rec["step"]
     tagm = f"{st['method']}:{st['src']}->{st['dst']}"
@@ -337,11 +363,16 @@ def judge_step(rec):
                                                             "which is not reachable from the roots", {"id": i}))
     T = sorted(want | Tset)
     Tset = set(T)
-    src_children = defaultdict(set)
-    for i, e in src.items():
+    dst_children = defaultdict(set)
+    for j, e in after.items():
         if e[0] == "tag":
             for p in e[5]:
-                src_children[p].add(i)
+                dst_children[p].add(j)
+
+    def independent_child(i):
+        """the destination holds an edit of tag i that the source does not know"""
+        return any(j not in src for j in dst_children.get(i, ()))
+
     for i in T:
         s = src[i]
         if i not in after:
@@ -352,6 +383,10 @@ def judge_step(rec):
             b = before[i]
             if a[:-1] != b[:-1] if a[0] == "tag" else a != b:
                 out.append((f"transfer:{s[0]}:existing-record-changed", f"{tagm}: existing record {i} was modified", {"id": i}))
+            if s[0] == "tag" and a[0] == "tag" and a[-1] != s[-1] and not independent_child(i):
+                out.append(("transfer:tag:status-of-existing", f"{tagm}: tag {i} (already in the destination) is "
+                            f"{'current' if s[-1] else 'superseded'} in the source and {'current' if a[-1] else 'superseded'} "
+                            "in the destination after the transfer", {"id": i, "src": s, "dst": a}))
             continue
         if s[0] == "call":
             if a[1:6] != s[1:6] or a[7] != s[7]:
@@ -368,13 +403,58 @@ def judge_step(rec):
         elif s[0] == "tag":
             if a[:-1] != s[:-1]:
                 out.append(("transfer:tag:columns-or-parents", f"{tagm}: tag {i} arrives different", {"id": i, "src": s, "dst": a}))
-            independent = any(i in e[5] and j not in src for j, e in before.items() if e[0] == "tag")
-            if not independent and a[-1] != s[-1]:
+            if not independent_child(i) and a[-1] != s[-1]:
                 out.append(("transfer:tag:status", f"{tagm}: tag {i} is {'current' if s[-1] else 'superseded'} in the source "
                                                    f"and {'current' if a[-1] else 'superseded'} in the destination",
                             {"id": i, "src": s, "dst": a}))
         elif a != s:
             out.append((f"transfer:{s[0]}:differs", f"{tagm}: {s[0]} record {i} arrives different", {"id": i, "src": s, "dst": a}))
+    # "current iff no edit supersedes it" in the destination (if it held before the transfer)
+    def wf(b):
+        ch = {p for e in b.values() if e[0] == "tag" for p in e[5]}
+        return [i for i, e in b.items() if e[0] == "tag" and e[-1] != (i not in ch)]
+    if not wf(before) and not wf(src):
+        for i in wf(after)[:2]:
+            out.append(("tags:invariant", f"{tagm}: after the transfer tag {i} is "
+                        f"{'current although an edit supersedes it' if after[i][-1] else 'superseded without an edit'} "
+                        "in the destination", {"id": i, "dst": after[i]}))
+
+    # what get_tags answers for every transferred entity: the current (key, value) pairs
+    def current_pairs(b):
+        m = defaultdict(list)
+        for i, e in b.items():
+            if e[0] == "tag" and e[-1]:
+                m[e[2]].append((e[3], e[4]))
+        return m
+    cp_s, cp_a = current_pairs(src), current_pairs(after)
+    foreign = {e[2] for j, e in after.items() if e[0] == "tag" and j not in src}
+    for ent in T:
+        if ent not in foreign and sorted(cp_s.get(ent, [])) != sorted(cp_a.get(ent, [])):
+            out.append(("tags:get_tags-differs", f"{tagm}: get_tags({ent}) is {sorted(cp_s.get(ent, []))} in the source and "
+                                                 f"{sorted(cp_a.get(ent, []))} in the destination",
+                        {"entity": ent, "src": sorted(cp_s.get(ent, [])), "dst": sorted(cp_a.get(ent, []))}))
+            break
+
+    # the same source transferred in one go into a brand-new repository
+    if rec.get("fresh_error"):
+        out.append(("oneshot:raised", f"{tagm}: a one-shot transfer of the same source raised {rec['fresh_error']}", {}))
+    elif rec.get("fresh") is not None and arrived is not None:
+        fresh, _ = bundle(rec["fresh"])
+        for i in T:
+            if i in arrived and i in after and i in fresh:
+                a, f = after[i], fresh[i]
+                same = (a[:-1] == f[:-1] and (a[-1] == f[-1] or independent_child(i))) if a[0] == "tag" else \
+                    ((a[:8] == f[:8]) if a[0] == "call" else a == f)      # subtree rows are not part of the records
+                if not same:
+                    out.append((f"oneshot:{a[0]}:differs", f"{tagm}: {a[0]} record {i}, brought by incremental transfers, differs "
+                                                           "from the same record after a one-shot transfer of the same source "
+                                                           "into an empty repository", {"id": i, "incremental": a, "oneshot": f}))
+                    break
+        for i in T:
+            if i not in fresh:
+                out.append(("oneshot:missing", f"{tagm}: one-shot transfer lacks reachable record {i}", {"id": i}))
+                break
+
     for i in after:
         if i not in before and i not in Tset:
             out.append(("transfer:extra-record", f"{tagm}: record {i} was added but is not reachable from the roots", {"id": i}))
@@ -446,7 +526,7 @@ class Check(PropertyCheck):
     def scenarios(self):
         if getattr(self, "_outs", None) is not None:
             return self._outs
-        n = 4 if self.tier == "quick" else 24
+        n = 5 if self.tier == "quick" else 25
         specs = []
         corpus = lib.CORPUS / "C23.jsonl"
         if corpus.exists():
@@ -555,8 +635,13 @@ class Check(PropertyCheck):
     # ------------------------------------------------------------------
     def judge(self, out):
         found = []
-        for rec in out["steps"]:
-            found += judge_step(rec)
+        arrived = defaultdict(set)      # repository -> ids brought there by the transfers of this history
+        for si, rec in enumerate(out["steps"]):
+            dst = rec["step"]["dst"]
+            arrived[dst] |= {r[0] for t in ("execution", "job", "call_node", "value", "tag") for r in rec["dst_after"][t]} - \
+                            {r[0] for t in ("execution", "job", "call_node", "value", "tag") for r in rec["dst_before"][t]}
+            for key, what, detail in judge_step(rec, arrived[dst]):
+                found.append((key, f"[transfer {si + 1} of {len(out['steps'])} in the history] " + what, detail))
         e = out.get("e2e")
         if e:
             if any(e["errors"]):
@@ -571,19 +656,37 @@ class Check(PropertyCheck):
         outs = self.scenarios()
         seen = set()
         nsteps = 0
-        for out in outs:
+        for k, out in enumerate(outs):
             nsteps += len(out["steps"])
+            pending = 0
+            si = 0
+            for st in out["spec"]["steps"]:
+                if "method" not in st:
+                    pending += 1
+                    self.stat("oracle_source_op_between_transfers", st["op"] + (":" + st["cmd"] if st["op"] == "tag" else ""))
+                    continue
+                rec = out["steps"][si] if si < len(out["steps"]) else None
+                self.count(("oracle", k, si))
+                self.stat("oracle_transfer_method", st["method"])
+                self.stat("oracle_position_in_history", si + 1)
+                self.stat("oracle_source_ops_since_previous_transfer", min(pending, 5))
+                if rec is not None:
+                    self.stat("oracle_destination", "empty" if not rec["dst_before"]["value"] else "non-empty")
+                    self.count(None, len(rec["probes"]))
+                pending = 0
+                si += 1
             for key, what, detail in self.judge(out):
                 if key in seen:
                     continue
                 seen.add(key)
                 self.findings.append(Finding(key, what, {"spec": out["spec"], "key": key, "detail": detail}))
-        self.evaluations += nsteps
         self.stat("oracle", "transfers_judged", nsteps)
         known = {k["key"] for k in lib.load_known_findings() if k.get("property") == self.id}
         new = [f for f in self.findings if f.key not in known]
         self.ob("oracle", f"implementation oracle (whole-graph equality on the transferred records, nothing extra, counts, "
-                          f"repeat is a no-op, tag status, shallow-cache probes, end-to-end re-run) on {nsteps} real transfers: "
+                          f"repeat is a no-op, tag status of new and of already-present tags, get_tags view, tag invariant, "
+                          f"equality with a one-shot transfer into an empty repository, shallow-cache probes, end-to-end "
+                          f"re-run) after every one of {nsteps} real transfers of incremental histories: "
                           f"nothing beyond the registered known findings",
                 not new, "; ".join(f.what for f in new[:5]))
         # the extracted variant must agree with what the real code was seen to do
